@@ -232,6 +232,7 @@ type dbEnv struct {
 	seq            int
 	opener         func(st *leveldbstorage.Storage) (isaac.PermanentDatabase, *isaacdatabase.Center, error)
 	baseGoroutines int
+	SettleTimeouts int // settle() waits that hit their bound (speed only)
 }
 
 // dbOpen opens permanent database + center like launch.LoadDatabase does, with the state caches production turns on
@@ -363,6 +364,7 @@ func (e *dbEnv) settle() {
 	}
 
 	e.baseGoroutines = runtime.NumGoroutine()
+	e.SettleTimeouts++
 }
 
 func (e *dbEnv) Close() {
